@@ -14,7 +14,7 @@ CLAIMS = {
          "Every committed block of every simulated history: for every pool and asset book reserve <= bank balance of the pool address and the excess is explained by plain third-party sends; per-denom liquidity total == sum of reserves.", "5/C01", ""),
  'C02': ("deterministic simulation: step-wise invariant (TotalShares = supply = sum committed = custody) + bank-event ledger attribution of every share mint/burn to a join/create/exit",
          "Checked at every transaction and block boundary of every simulated history, including leveraged-LP joins/exits on behalf of position addresses and liquidations.", "5/C02", ""),
- 'C03': ("deterministic simulation: every executed swap (all swaps execute in the amm end blocker) is re-priced against pool reserves reconstructed from the ordered real bank movements immediately before it; exact rational bound for equal weights, float bound with the stated 1e-8 allowance for unequal weights, oracle-value bound for oracle pools (both on the stated output and on everything that leaves the pool's address while the swap is in flight); for swaps belonging to user requests a fee-aware bound (input reduced by the smallest fee any tier discount and two-hop routing rule allows)",
+ 'C03': ("deterministic simulation: every executed swap (all swaps execute in the amm end blocker) is re-priced against pool reserves reconstructed from the ordered real bank movements immediately before it; exact rational bound for equal weights, float bound with the stated 1e-8 allowance for unequal weights, oracle-value bound for oracle pools (both on the stated output and on everything that leaves the pool's address while the swap is in flight); for swaps belonging to user requests a fee-aware bound (input reduced by the smallest fee any tier discount and two-hop routing rule allows); history probes on discarded branches of reached states: A->B->A round trips and k-way split trades (exact-in and exact-out forms) through the chain's own routing functions must not gain beyond the allowance",
          "Held on every swap of every explored history (user requests, fee conversions, multi-hop hops, both directions). Does not cover the numeric input space of the pure pricing functions uniformly: reserves, weights, fees and prices are swarm-randomised and evolve along trajectories.", "5/C03", "Numeric-domain completeness of the pure functions is out of this technique's reach."),
  'C04': ("deterministic simulation: reference model with one record per accepted swap request (diff of the transient queue after every transaction), matched against the ordered end-block swap settlements and cross-checked with the bank-event ledger; schedules = seeded block composition/order, duplicates, same/opposite directions on one pool",
          "Each accepted request settles at most once within its limits or leaves no movement; no settlement without a request of the same block; queue empty before the first transaction of the next block.", "5/C04", ""),
@@ -30,7 +30,7 @@ CLAIMS = {
          "Checked at every transaction and block boundary.", "5/C09", ""),
  'C11': ("deterministic simulation: step-wise invariant accounted balance == reserve + liabilities - custody and non-amm part == liabilities - custody under alternating amm-side and perpetual-side operations",
          "Checked at every transaction and block boundary (take-profit term off, as in the default parameters).", "5/C11", ""),
- 'C12': ("deterministic simulation: step-wise invariants total == sum over accounts (bug-compatible relation for known finding F04), custody >= committed + claimed for bank-backed denoms, no negative committed; lock-up reference model around every step (amount still under lock in the pre-state must remain committed unless the step liquidates a position that was unhealthy at its turn, taken from C10's mirror of the handler loop); commit/uncommit/bond/unbond/join/exit/leveraged-LP (incl. debt-free positions and owners naming their own positions in close-positions)/vesting/EdenB traffic",
+ 'C12': ("deterministic simulation: step-wise invariants total == sum over accounts (bug-compatible relation for known finding F04), custody >= committed + claimed for bank-backed denoms, no negative committed; lock-up reference model around every step with the monitor's own lock ledger (every growth of an account's committed oracle-pool shares is a one-hour lock, independently of what the chain recorded; the larger of ledger and chain records counts; amount still under lock in the pre-state must remain committed unless the step liquidates a position that was unhealthy at its turn, taken from C10's mirror of the handler loop); commit/uncommit/bond/unbond/join/exit/leveraged-LP (incl. debt-free positions and owners naming their own positions in close-positions)/vesting/EdenB traffic",
          "Checked at every transaction and block boundary. The chain-wide total deviates by exactly 2 x uncommitted (known finding F04, not repairable without failing the existing suite); any other drift is a violation.", "5/C12", ""),
  'C14': ("deterministic simulation: integer reference model of every vesting entry applied per vest/claim/cancel/vest-now transaction (pre/post state), conservation Eden in == released + returned + scheduled, every entry's own start/length/released amount carried across cancels and governance changes of the vesting parameters, claims must not fail",
          "Per transaction on every simulated history; schedules 5..100 blocks, 1..10 concurrent vestings, claims/cancels at arbitrary heights.", "5/C14", ""),
@@ -40,7 +40,7 @@ CLAIMS = {
          "After every block of every simulated history. Exact store-key collisions of concatenated names are known finding F11.", "5/C16", ""),
  'C18': ("deterministic simulation with fault injection: oracle outages, clock gaps/jumps (1 ms .. 40 days), restarts, adversarial/dust traffic, governance proposals moving one numeric/boolean field of any module's Params (enumerated by reflection) to an edge value that the module's own validation accepts, structural governance edges (pool parameters, pool and asset listings, chain-wide constants, inflation schedules), quiet periods in which only feeders and governance act, a permanently locked account created at the burn address, a fault-free cool-down with canary requests at the end of every run (bounded-liveness evidence); oracle = FinalizeBlock/Commit never errors or panics on any node",
          "Every FinalizeBlock and Commit of every node in every run must succeed; a failure is reported with the minimised trace.", "5/C18", ""),
- 'C19': ("deterministic simulation with crash/restart injection: twin replicas fed identical blocks, restart after commit / between FinalizeBlock and Commit / by injected disk read error; the replica also runs CheckTx and keeper queries the reference never runs; a fresh OS process re-executes the block log from genesis and from a database dump under another TZ/GOMAXPROCS; thorough tier restarts the replica after every height",
+ 'C19': ("deterministic simulation with crash/restart injection: twin replicas fed identical blocks, restart after commit / between FinalizeBlock and Commit / by injected disk read error; the replica also runs CheckTx and keeper queries the reference never runs; a fresh OS process re-executes the block log from genesis and from a database dump under another TZ/GOMAXPROCS; a third child (go1.26.8 testing/synctest bubble) re-executes it under a simulated wall clock that starts in the year 2000 and jumps by minutes to decades between blocks; thorough tier restarts the replica after every height",
          "App hash, tx results (code, codespace, gas, data, events) and validator updates compared after every block between a reference node and a replica that is crashed and rebuilt from its SimDB.", "5/C19", ""),
  'C10': ("deterministic simulation: at the exact moment (pre-state of each third-party close-positions transaction through the ante wrapper; committed state + new header for the begin-block sweep) the chain's own health functions and trigger prices are evaluated on a discarded cache context; a clearly non-closable position must come out unchanged; every successful open must leave health > safety factor in the final state",
          "Bots naming arbitrary (owner,id) pairs incl. all positions in one message, racing in any order, price paths hovering around liquidation, stop-loss/take-profit near the market. Multi-position messages and the begin-block sweep are mirrored with the chain's own functions on a discarded branch, each position judged when its turn comes. Successful opens and collateral top-ups are re-checked with the borrow interest accrued.", "5/C10", ""),
